@@ -4,26 +4,24 @@ from concurrent.futures import ThreadPoolExecutor
 VIS="api_analyzer/_ast_visitor.py"; GEN="stubs_generator/_stub_string_generator.py"; GS="stubs_generator/_generate_stubs.py"; HELP="stubs_generator/_helper.py"; GA="api_analyzer/_get_api.py"; DP="docstring_parsing/_docstring_parser.py"; MH="api_analyzer/_mypy_helpers.py"
 TY="api_analyzer/_types.py"
 REWRITES = [
- ("type var sort via sorted()", VIS, '                type_var_types = list(self.type_var_types)\n                # Sort for the snapshot tests\n                type_var_types.sort(key=lambda x: x.name)', '                # Sort for the snapshot tests\n                type_var_types = sorted(self.type_var_types, key=lambda x: x.name)'),
- ("warning guard with nested if", VIS, '            if (\n                code_type is not None\n                and doc_type is not None\n                and code_type != doc_type\n                and self.type_source_warning == TypeSourceWarning.WARN\n            ):\n                msg = f"Different type hint and docstring types for \'{function_id}\'."\n                logging.warning(msg)',
-  '            if code_type is not None and doc_type is not None and code_type != doc_type:\n                if self.type_source_warning == TypeSourceWarning.WARN:\n                    msg = f"Different type hint and docstring types for \'{function_id}\'."\n                    logging.warning(msg)'),
- ("preference test operands swapped", VIS, 'code_type is None or self.type_source_preference == TypeSourcePreference.DOCSTRING\n            ):\n                parameters[i]', 'code_type is None or TypeSourcePreference.DOCSTRING == self.type_source_preference\n            ):\n                parameters[i]'),
- ("none result test via two locals", GEN, '            if result_type["kind"] == "NamedType" and result_type["qname"] == "builtins.None":\n                return ""', '            is_none_result = result_type["kind"] == "NamedType" and result_type["qname"] == "builtins.None"\n            if is_none_result:\n                return ""'),
- ("is_public local inlined", VIS, None, None),
- ("docstring style dispatch order", "docstring_parsing/_create_docstring_parser.py", None, None),
- ("is_internal via index", "stubs_generator/_helper.py", None, None),
- ("module id setter unchanged else-branch flipped", GEN, '        if self.currently_creating_reexport_data:\n            self.reexport_module_id = module_id\n        else:\n            self.module_id = module_id', '        if not self.currently_creating_reexport_data:\n            self.module_id = module_id\n        else:\n            self.reexport_module_id = module_id'),
- ("get module id conditions reordered", GEN, '        if get_actual_id or not self.currently_creating_reexport_data:\n            return self.module_id\n        return self.reexport_module_id', '        if self.currently_creating_reexport_data and not get_actual_id:\n            return self.reexport_module_id\n        return self.module_id'),
- ("imports sorted via sorted()", GEN, None, None),
- ("enum instance loop as comprehension", GEN, None, None),
- ("attribute publicity guard positive form", GEN, '            if not attribute.is_public:\n                continue', '            if attribute.is_public is False or not attribute.is_public:\n                continue'),
- ("griffe node lookup via elif chain to dict", DP, None, None),
- ("walker callbacks cache check", "api_analyzer/_ast_walker.py", '        methods = self._cache.get(class_name, None)\n        if methods is None:', '        methods = self._cache.get(class_name)\n        if methods is None:'),
- ("returns section truthiness to None test", DP, '        if not all_returns:\n            return []', '        if all_returns is None or not all_returns:\n            return []'),
- ("api json indent constant", "api_analyzer/_api.py", 'json.dump(self.to_dict(), f, indent=2)', 'json.dump(self.to_dict(), f, indent=2, ensure_ascii=True)'),
- ("todo message table as module constant lookup unchanged but .get", GEN, None, None),
- ("visited nodes as list", "api_analyzer/_ast_walker.py", None, None),
- ("leave_classdef len test", VIS, None, None),
+ ("constructor target guard nested", VIS, '            if not is_static and not (\n                isinstance(lvalue, mp_nodes.MemberExpr)\n                and isinstance(lvalue.expr, mp_nodes.NameExpr)\n                and getattr(lvalue.expr.node, "is_self", False)\n            ):\n                return attributes\n',
+  '            if not is_static:\n                is_instance_member = (\n                    isinstance(lvalue, mp_nodes.MemberExpr)\n                    and isinstance(lvalue.expr, mp_nodes.NameExpr)\n                    and getattr(lvalue.expr.node, "is_self", False)\n                )\n                if not is_instance_member:\n                    return attributes\n'),
+ ("file list sorted in place", GA, '    for file_path in sorted(root.glob(pattern="./**/*.py")):', '    python_files = list(root.glob(pattern="./**/*.py"))\n    python_files.sort()\n    for file_path in python_files:'),
+ ("griffe search path as tuple, kwargs reordered", DP, 'load(package_path.name, search_paths=[package_path.parent], docstring_parser=parser)', 'load(package_path.name, docstring_parser=parser, search_paths=(package_path.parent,))'),
+ ("package walk-up with a local", DP, '        while (package_path.parent / "__init__.py").is_file() and package_path.parent != package_path:\n            package_path = package_path.parent\n', '        while True:\n            parent_path = package_path.parent\n            if parent_path == package_path or not (parent_path / "__init__.py").is_file():\n                break\n            package_path = parent_path\n'),
+ ("class docstring default built explicitly", DP, '        if griffe_node is None:\n            return ClassDocstring()\n', '        if griffe_node is None:\n            return ClassDocstring(description="", full_docstring="", examples=[])\n'),
+ ("untyped argument merged with the Any case", VIS, '            if mypy_type is None:\n                # Mypy does not analyse every function (e.g. unreachable code or functions with @no_type_check), for\n                # those we have no type information\n                pass\n            elif isinstance(mypy_type, mp_types.AnyType) and not has_correct_type_of_any(mypy_type.type_of_any):',
+  '            if mypy_type is None or (\n                isinstance(mypy_type, mp_types.AnyType) and not has_correct_type_of_any(mypy_type.type_of_any)\n            ):'),
+ ("dict arity greater than one", VIS, 'elif type_name in {"dict", "Mapping"} and len(mypy_type.args) == 2:', 'elif type_name in {"dict", "Mapping"} and len(mypy_type.args) > 1:'),
+ ("alias expansion nested ifs", VIS, '        if isinstance(mypy_type, mp_types.TypeAliasType) and not mypy_type.is_recursive:\n            mypy_type = mp_types.get_proper_type(mypy_type)\n', '        if isinstance(mypy_type, mp_types.TypeAliasType):\n            if not mypy_type.is_recursive:\n                mypy_type = mp_types.get_proper_type(mypy_type)\n'),
+ ("Final argument through a local", VIS, '                    return sds_types.FinalType(type_=self.mypy_type_to_abstract_type(mypy_type, unanalyzed_args[0]))', '                    final_argument = unanalyzed_args[0]\n                    return sds_types.FinalType(type_=self.mypy_type_to_abstract_type(mypy_type, final_argument))'),
+ ("unbound name compared with the empty string", MH, '        elif not expr.fullname:', '        elif expr.fullname == "":'),
+ ("open keywords reordered", GS, 'file_path.open("w", encoding="utf-8", errors="backslashreplace")', 'file_path.open("w", errors="backslashreplace", encoding="utf-8")'),
+ ("digit test on the first character with emptiness test", HELP, '    if converted_name[:1].isdigit():', '    if converted_name and converted_name[0].isdigit():'),
+ ("ABC filtered before the loop", GEN, '        superclasses = class_.superclasses\n', '        superclasses = [superclass for superclass in class_.superclasses if superclass != "abc.ABC"]\n'),
+ ("type variable definition test through a local", GEN, '                if attribute_type["kind"] == "TypeVarType" and attribute_type["name"] == attribute.name:\n                    continue', '                is_type_var_definition = attribute_type["kind"] == "TypeVarType" and attribute_type["name"] == attribute.name\n                if is_type_var_definition:\n                    continue'),
+ ("finite test through a local", VIS, '                if isinstance(inferred_default_value, float) and not math.isfinite(inferred_default_value):', '                is_infinite = isinstance(inferred_default_value, float) and not math.isfinite(inferred_default_value)\n                if is_infinite:'),
+ ("docstring lookup miss through a local result", DP, '                logging.warning(msg)\n                return None\n\n        return griffe_node', '                logging.warning(msg)\n                griffe_node = None\n                break\n\n        return griffe_node'),
 ]
 PROPS=[f"C{i:02d}" for i in range(1,21)]
 def run(prop, repo):
